@@ -5,9 +5,13 @@ package main
 // Listeners:  A = 127.0.0.1:pA (http) / 127.0.0.1:pA' (https)   the usual API origin
 //             B = 127.0.0.1:pB / pB'                            same host, other port
 //             C = 127.0.0.2:pA / pA' (same port numbers as A when bindable)  other host
+//             F = 127.77.x.y:80 / :443 (an address of the loopback net picked per process)  other host on the
+//                 DEFAULT ports, so that "http://h" / "http://h:80" and "https://h" / "https://h:443" can be told apart
 // plus the name `localhost` as an alias authority for the A and B listeners
 // (same IP, same port, other host NAME).  The origin a request was addressed
-// to is  scheme-of-listener :// Host-header.
+// to is  scheme-of-listener :// Host-header, compared after the normalisation of
+// RFC 3986 6.2.2/6.2.3 (scheme and host are case-insensitive, the default port
+// of the scheme may be written or left out).
 
 import (
 	"crypto/ecdsa"
@@ -42,8 +46,42 @@ type site struct {
 	Listener int
 }
 
-func (s site) HostPort() string { return net.JoinHostPort(s.Host, s.Port) }
-func (s site) Origin() string   { return s.Scheme + "://" + s.HostPort() }
+// HostPort is the usual spelling of the authority: the default port of the scheme is left out.
+func (s site) HostPort() string {
+	if s.Port == defaultPort(s.Scheme) {
+		return s.Host
+	}
+	return net.JoinHostPort(s.Host, s.Port)
+}
+func (s site) Origin() string { return s.Scheme + "://" + s.HostPort() }
+
+func defaultPort(scheme string) string {
+	if strings.EqualFold(scheme, "https") {
+		return "443"
+	}
+	return "80"
+}
+
+// normHost: host names are case-insensitive (RFC 3986 3.2.2); one trailing dot only marks the name as absolute
+// in the DNS and names the same host (weakest reading: a credential is never flagged for crossing between
+// "h" and "h.").
+func normHost(h string) string { return strings.TrimSuffix(strings.ToLower(h), ".") }
+
+// normAuthority: scheme://host:port with lower-case scheme and host and the port always written.
+func normAuthority(scheme, hostport string) string {
+	scheme = strings.ToLower(scheme)
+	h, p := splitHostPort(hostport)
+	if p == "default" || p == "" {
+		p = defaultPort(scheme)
+	}
+	return scheme + "://" + net.JoinHostPort(normHost(h), p)
+}
+
+// siteOf: the site an authority names, whatever its spelling.
+func (h *hub) siteOf(scheme, hostport string) (int, bool) {
+	i, ok := h.byAuthority[normAuthority(scheme, hostport)]
+	return i, ok
+}
 
 const (
 	sAhttp = iota
@@ -56,11 +94,15 @@ const (
 	sDhttps
 	sEhttp
 	sEhttps
-	nSites
+	nSites // the sites the seeded random generators draw from
+	// the default-port origin is only aimed at by the Location-spelling coordinates
+	sFhttp    = nSites
+	sFhttps   = nSites + 1
+	nAllSites = nSites + 2
 )
 
 // relIdx: relation between two sites, as seen from `from`. Host classes: 0 A, 1 B (127.0.0.1), 2 C (127.0.0.2),
-// 3 D, 4 E (localhost, same listeners as A and B).
+// 3 D, 4 E (localhost, same listeners as A and B), 5 F (own address, default ports).
 func relIdx(from, to int) string {
 	fc, ft, tc, tt := from/2, from%2, to/2, to%2
 	hostOf := func(c int) int {
@@ -69,6 +111,8 @@ func relIdx(from, to int) string {
 			return 0
 		case 2:
 			return 1
+		case 5:
+			return 3
 		}
 		return 2
 	}
@@ -105,7 +149,7 @@ type reqRec struct {
 	Auth     []string `json:",omitempty"`
 	TokenQ   string   `json:",omitempty"`
 	Status   int
-	Location *string `json:",omitempty"`
+	Location *string  `json:",omitempty"`
 	HopSpec  *hopSpec `json:",omitempty"`
 	Note     string   `json:",omitempty"`
 }
@@ -118,6 +162,9 @@ type hopSpec struct {
 	Status int
 	Form   string // abs | scheme-rel | path-abs | query-only | dot-rel | seg-rel | empty | missing | malformed:<text>
 	Target int    // site index (ignored by forms that cannot name another origin)
+	// Spell: how the Location value is SPELLED ("" = lower-case scheme and host, port as in site.HostPort, no
+	// userinfo, no surrounding white space); '+'-joined atoms, see spellAtoms. The origin named stays Target.
+	Spell string `json:",omitempty"`
 }
 
 type chainSpec struct {
@@ -165,13 +212,14 @@ type stepState struct {
 const chainCap = 40 // a chain that is still being walked after this many requests is answered 410
 
 type hub struct {
-	sites     [nSites]site
-	servers   []*httptest.Server
-	caFile    string
-	mu        sync.Mutex
-	seq       int
-	log       []reqRec
-	steps     map[string]*stepState
+	sites       [nAllSites]site
+	fIP         string // address of the default-port listeners ("" = could not be bound)
+	servers     []*httptest.Server
+	caFile      string
+	mu          sync.Mutex
+	seq         int
+	log         []reqRec
+	steps       map[string]*stepState
 	byAuthority map[string]int // scheme + "://" + hostport -> site idx
 }
 
@@ -181,6 +229,24 @@ func listenOn(ip string, port int) (net.Listener, error) {
 
 func newHub(dir string) (*hub, error) {
 	h := &hub{steps: map[string]*stepState{}, byAuthority: map[string]int{}}
+	// the default-port origin F: an address of 127.77.0.0/16 of our own (several driver processes run side by
+	// side), on which both :80 and :443 can be bound
+	var fLn [2]net.Listener
+	pid := os.Getpid()
+	for try := 0; try < 200 && h.fIP == ""; try++ {
+		x := pid + try*7919
+		ip := fmt.Sprintf("127.77.%d.%d", 1+(x/250)%250, 1+x%250)
+		l80, err := listenOn(ip, 80)
+		if err != nil {
+			continue
+		}
+		l443, err := listenOn(ip, 443)
+		if err != nil {
+			l80.Close()
+			continue
+		}
+		h.fIP, fLn[0], fLn[1] = ip, l80, l443
+	}
 	// certificates
 	caKey, err := ecdsa.GenerateKey(elliptic.P256(), rand.Reader)
 	if err != nil {
@@ -198,6 +264,9 @@ func newHub(dir string) (*hub, error) {
 	}
 	leafT := &x509.Certificate{SerialNumber: big.NewInt(2), Subject: pkix.Name{CommonName: "verif c10 leaf"}, NotBefore: time.Now().Add(-24 * time.Hour), NotAfter: time.Now().Add(3650 * 24 * time.Hour), KeyUsage: x509.KeyUsageDigitalSignature, ExtKeyUsage: []x509.ExtKeyUsage{x509.ExtKeyUsageServerAuth},
 		IPAddresses: []net.IP{net.ParseIP("127.0.0.1"), net.ParseIP("127.0.0.2"), net.ParseIP("::1")}, DNSNames: []string{"localhost"}}
+	if h.fIP != "" {
+		leafT.IPAddresses = append(leafT.IPAddresses, net.ParseIP(h.fIP))
+	}
 	leafDER, err := x509.CreateCertificate(rand.Reader, leafT, caCert, &leafKey.PublicKey, caKey)
 	if err != nil {
 		return nil, err
@@ -215,10 +284,16 @@ func newHub(dir string) (*hub, error) {
 		likeOf int // try the port number of this listener first (-1: any)
 	}
 	specs := []lspec{{"127.0.0.1", false, -1}, {"127.0.0.1", true, -1}, {"127.0.0.1", false, -1}, {"127.0.0.1", true, -1}, {"127.0.0.2", false, 0}, {"127.0.0.2", true, 1}}
+	if h.fIP != "" {
+		specs = append(specs, lspec{h.fIP, false, -1}, lspec{h.fIP, true, -1})
+	}
 	ports := make([]string, len(specs))
 	for i, sp := range specs {
 		var ln net.Listener
 		var err error
+		if i >= 6 {
+			ln = fLn[i-6]
+		}
 		if sp.likeOf >= 0 {
 			p, _ := strconv.Atoi(ports[sp.likeOf])
 			ln, err = listenOn(sp.ip, p)
@@ -245,7 +320,7 @@ func newHub(dir string) (*hub, error) {
 	}
 	mk := func(idx int, name, scheme, host string, l int) {
 		h.sites[idx] = site{Idx: idx, Name: name, Scheme: scheme, Host: host, Port: ports[l], Listener: l}
-		h.byAuthority[scheme+"://"+net.JoinHostPort(host, ports[l])] = idx
+		h.byAuthority[normAuthority(scheme, net.JoinHostPort(host, ports[l]))] = idx
 	}
 	mk(sAhttp, "A-http", "http", "127.0.0.1", 0)
 	mk(sAhttps, "A-https", "https", "127.0.0.1", 1)
@@ -257,6 +332,14 @@ func newHub(dir string) (*hub, error) {
 	mk(sDhttps, "D-https", "https", "localhost", 1)
 	mk(sEhttp, "E-http", "http", "localhost", 2)
 	mk(sEhttps, "E-https", "https", "localhost", 3)
+	if h.fIP != "" {
+		mk(sFhttp, "F-http", "http", h.fIP, 6)
+		mk(sFhttps, "F-https", "https", h.fIP, 7)
+	} else {
+		// never reached by a request; cases aimed at F report themselves inconclusive
+		h.sites[sFhttp] = site{Idx: sFhttp, Name: "F-http", Scheme: "http", Host: "127.77.0.0", Port: "80", Listener: -1}
+		h.sites[sFhttps] = site{Idx: sFhttps, Name: "F-https", Scheme: "https", Host: "127.77.0.0", Port: "443", Listener: -1}
+	}
 	return h, nil
 }
 
@@ -306,7 +389,7 @@ func (h *hub) serve(listener int, w http.ResponseWriter, r *http.Request) {
 		scheme = "https"
 	}
 	rec := reqRec{Scheme: scheme, HostHdr: r.Host, Method: r.Method, Path: r.URL.Path, Query: r.URL.RawQuery, Hop: 0}
-	if idx, ok := h.byAuthority[scheme+"://"+r.Host]; ok && h.sites[idx].Listener == listener {
+	if idx, ok := h.siteOf(scheme, r.Host); ok && h.sites[idx].Listener == listener {
 		rec.Site = h.sites[idx].Name
 	}
 	rec.Auth = append(rec.Auth, r.Header.Values("Authorization")...)
@@ -454,11 +537,12 @@ func (h *hub) serve(listener int, w http.ResponseWriter, r *http.Request) {
 		var loc *string
 		set := func(s string) { loc = &s }
 		last := segs[len(segs)-1]
+		sscheme, sauth := spelledAuthority(tgt, hs.Spell, rec.Hop)
 		switch {
 		case hs.Form == "abs":
-			set(tgt.Origin() + r.URL.Path + "?" + qs)
+			set(sscheme + "://" + sauth + r.URL.Path + "?" + qs)
 		case hs.Form == "scheme-rel":
-			set("//" + tgt.HostPort() + r.URL.Path + "?" + qs)
+			set("//" + sauth + r.URL.Path + "?" + qs)
 		case hs.Form == "path-abs":
 			set(r.URL.Path + "?" + qs)
 		case hs.Form == "query-only":
@@ -474,6 +558,15 @@ func (h *hub) serve(listener int, w http.ResponseWriter, r *http.Request) {
 			set(strings.TrimPrefix(hs.Form, "malformed:"))
 		}
 		if loc != nil {
+			if spelled := spellLocation(*loc, hs.Spell); spelled != *loc {
+				loc = &spelled
+				rec.Location = loc
+				if writeRawRedirect(w, r, hs.Status, spelled) {
+					rec.Note = "raw field value"
+					finish(hs.Status)
+					return
+				}
+			}
 			w.Header()["Location"] = []string{*loc}
 			rec.Location = loc
 		}
